@@ -689,8 +689,8 @@ def ctx_pinned():
 
 def scenarios(ctx):
     rnd = random.Random(ctx.seed * 6151 + 977)
-    n = 110 if ctx.quick else 1500
-    nc = 25 if ctx.quick else 300
+    n = 110 if ctx.quick else 1000
+    nc = 25 if ctx.quick else 200
     out = pinned()
     for i in range(n):
         out.append(dict(kind="naming", seed=rnd.randrange(10 ** 9), n=rnd.randint(5, 12), script=[],
@@ -828,9 +828,9 @@ def design_jobs(ctx):
     def add(lane, name, cfg_text, workers, module="MC_Naming", **kw):
         lanes[lane].append(lambda acc: acc.tlc(module, module + "_" + name, cfg_text=cfg_text, workers=workers, timeout=1800, **kw))
 
-    add(0, "refs", mc_cfg(**dict(REFS, **({} if q else dict(mc=4, invalid=False)))), 2, expect_actions=ACTIONS["refs"],
+    add(0, "refs", mc_cfg(**dict(REFS, invalid=False, **({} if q else dict(mc=4)))), 2, expect_actions=ACTIONS["refs"],
         label="Naming repaired (eight repairs), references / become / remove / setter: every theorem")
-    add(1, "names", mc_cfg(**dict(NAMES, **({} if q else dict(mc=4, mn=4, invalid=False)))), 2, expect_actions=ACTIONS["names"],
+    add(1, "names", mc_cfg(**dict(NAMES, invalid=False, **({} if q else dict(mc=4, mn=4)))), 2, expect_actions=ACTIONS["names"],
         label="Naming repaired, explicit / '*' / inferred / auto names and private constants under colliding draws: every theorem")
     add(1, "default", mc_cfg(**dict(DEFAULT, **({} if q else dict(mc=4, toks=("s",))))), 2, expect_actions=ACTIONS["default"],
         label="Naming repaired, model= / parent's model / default model, set_default_model / new_model / get_default_model: every theorem")
@@ -852,7 +852,7 @@ def design_jobs(ctx):
             label="Naming control: the code's behaviour without the repair '%s'" % fixname)
     add(3, "stale", mc_cfg(invs=["StaleNeverRevives"], plain="MCPlainNames", calls=("create", "remove"), invalid=False, classes=("Operation",)), 1,
         expect_ok=False, label="Naming control: a reference whose node was removed revives when the name is used again (any repair)")
-    add(2, "ctx", ctx_cfg(INV_CTX, ["Immutable"], mo=5 if q else 7), 1 if q else 2, module="MC_NamingCtx", expect_actions=CTX_ACTIONS,
+    add(2, "ctx", ctx_cfg(INV_CTX, ["Immutable"], mo=5 if q else 6), 1 if q else 2, module="MC_NamingCtx", expect_actions=CTX_ACTIONS,
         label="NamingCtx: context defaults, pool context, num_submissions / submission_index")
     add(3, "ctx_reuse", ctx_cfg(["BatchIndexNeverReused"], mo=5, bss="MCBatchSizesNoZero", seeds="MCSeedsSmall"), 1, module="MC_NamingCtx", expect_ok=False,
         label="NamingCtx control: a handler submits the same batch index again after cancel_pending / reset (submission_index tells them apart)")
@@ -1042,6 +1042,10 @@ def check_naming(ctx, design=True):
                          "the table NamingOps!InferForms of source shapes (each rendered into a real source file and executed)"]
     ctx.assumptions += ["become(): the replacement has no children and is no descendant of the replaced node (anything else is finding F14 of C14)",
                         "a node is not given the same parent twice; positional parents only (keyword parents: C14)"]
+    ctx.clauses_decided = list(ctx.clauses_decided) + ["extension Naming (E: clauses, drift only): " + c for c in CLAUSES_DESIGN + CLAUSES_TRACE]
+    ctx.clauses_not_decided = list(ctx.clauses_not_decided) + [
+        "extension Naming: keyword parents, copy / save / load (C14); random numbers and sub seeds (C15); pool contents (PoolApi extension); "
+        "load_model; multi-line source shapes other than the listed ones"]
     ctx.notes.append("Naming extension: %d histories (%d pinned), %d calls, %d raised; %d corrupted-trace controls rejected; user-level theorems violated "
                      "on states the code was shown to be in (histories): %s"
                      % (len(scs), len(pinned()) + len(ctx_pinned()), ncalls, nraised, len(corr),
